@@ -211,6 +211,16 @@ def run(ctx: Ctx) -> None:
                 and isinstance(b.ast.comparators[0], ast.Name) and b.ast.comparators[0].id == kw_param:
             if (isinstance(b.ast.ops[0], ast.In) and b.label == "F") or (isinstance(b.ast.ops[0], ast.NotIn) and b.label == "T"):
                 no_mapping.append(b)
+    # the same test held in a local: `has_mapping = None in kwargs` ... `elif has_mapping:`
+    lfl = flow_of(prog, lit)
+    for b in lcfg.nodes:
+        if b.kind == "branch" and isinstance(b.ast, ast.Name):
+            ds = lfl.root_defs(b.ast)
+            if len(ds) == 1 and isinstance(ds[0].value, ast.Compare):
+                c = ds[0].value
+                if len(c.ops) == 1 and isinstance(c.left, ast.Constant) and c.left.value is None and isinstance(c.comparators[0], ast.Name) and c.comparators[0].id == kw_param:
+                    if (isinstance(c.ops[0], ast.In) and b.label == "F") or (isinstance(c.ops[0], ast.NotIn) and b.label == "T"):
+                        no_mapping.append(b)
     from .common import dominated as _dom
     for n in lit.own_nodes():
         if isinstance(n, ast.Attribute) and n.attr == "default" and isinstance(lit.module.parent.get(n), ast.Call):
